@@ -7,7 +7,7 @@ TAU = 6.283185307179586
 BOUNDS = {
     "quick": "start, end, rx, ry, rotation (degrees, any value in +-720) all symbolic; all four flag combinations; both branches of the radius correction; "
              "degenerate inputs (coincident end points, rx = 0, ry = 0) with symbolic end points; construction through Arc(start, rx, ry, rot, fa, fs, end) and through "
-             "Path('M.. A..') / Path('M.. a..') with tag numerals",
+             "Path('M.. A..') / Path('M.. a..') with tag numerals; negative radii through path data, through Path.arc's arguments and through the constructor",
     "thorough": "same harnesses with 60 s per lemma and 900 s per harness, all construction routes (Arc, A, a) for every flag combination, and the unconstrained-radius variants",
 }
 OUTSIDE = ["Arc.get_start_t / t_at_point: that point(t) starts its parametrisation at the stored start point (arc.point(t) is replaced by point_at_t at a free parameter plus the "
